@@ -97,6 +97,12 @@ pub fn compare(x: &ExpectedTx, t: &DTx, check_redeemers: bool) -> Vec<Diff> {
     let got_signers = t.required_signers.clone();
     let exp_signers = x.signers.clone().filter(|s| !s.is_empty());
     // required signers form a set: compare as sets, duplicates are C10's business
+    if let Some(g) = &got_signers {
+        let uniq: BTreeSet<&Vec<u8>> = g.iter().collect();
+        if uniq.len() != g.len() {
+            out.push(d("required_signers.duplicates", uniq.len(), g.len(), false));
+        }
+    }
     let gs: Option<BTreeSet<Vec<u8>>> = got_signers.map(|v| v.into_iter().collect());
     let xs: Option<BTreeSet<Vec<u8>>> = exp_signers.map(|v| v.into_iter().collect());
     if gs != xs {
@@ -108,6 +114,14 @@ pub fn compare(x: &ExpectedTx, t: &DTx, check_redeemers: bool) -> Vec<Diff> {
         ));
     }
 
+    for (name, list) in [("reference_inputs", &t.reference_inputs), ("collateral", &t.collateral)] {
+        if let Some(l) = list {
+            let uniq: BTreeSet<&(Vec<u8>, u64)> = l.iter().collect();
+            if uniq.len() != l.len() {
+                out.push(d(format!("{name}.duplicates"), uniq.len(), l.len(), false));
+            }
+        }
+    }
     let got_refs: BTreeSet<(Vec<u8>, u64)> = t.reference_inputs.clone().unwrap_or_default().into_iter().collect();
     if got_refs != x.reference_inputs {
         out.push(d("reference_inputs", refs_str(&x.reference_inputs), refs_str(&got_refs), false));
